@@ -38,7 +38,9 @@ pub fn own_psk8_llr(y: Complex<f64>, sigma: f64, b: usize) -> f64 {
     let sc = 1.0 / (sigma * sigma);
     let mut lse = [0.0f64; 2];
     for v in 0..2u8 {
-        let ds: Vec<f64> = TABLE.iter().filter(|t| t.0[b] == v).map(|t| (y.re * t.1.cos() + y.im * t.1.sin()) * sc).collect();
+        // the components are scaled before they are combined, so that samples near the top of the f64
+        // range cannot overflow in the oracle
+        let ds: Vec<f64> = TABLE.iter().filter(|t| t.0[b] == v).map(|t| (y.re * sc) * t.1.cos() + (y.im * sc) * t.1.sin()).collect();
         let m = ds.iter().cloned().fold(f64::NEG_INFINITY, f64::max);
         lse[v as usize] = m + ds.iter().map(|d| (d - m).exp()).sum::<f64>().ln();
     }
@@ -119,9 +121,26 @@ fn sample_strategy(_t: Tier) -> BoxedStrategy<LlrCase> {
         let r = 10f64.powf(lt) * sigma * sigma;
         ((r * a.cos(), r * a.sin()), sigma)
     });
+    // the ends of the f64 range: sigma^2 within three decades of the largest / smallest normal number,
+    // samples up to 1.2e308 per component or down into the subnormals, |r|/sigma^2 still moderate
+    let ends = (prop_oneof![148.0f64..153.0, -153.0f64..-148.0], (-3.0f64..3.0), 0.0f64..(2.0 * PI)).prop_map(|(ls, lt, a)| {
+        let sigma = 10f64.powf(ls);
+        let r = (10f64.powf(lt) * sigma * sigma).min(1.2e308);
+        ((r * a.cos(), r * a.sin()), sigma)
+    });
+    // the very top: both components between 0.9e308 and 1.25e308 in magnitude (their sum is beyond the
+    // largest f64, their norm and every projection onto a constellation point are not), sigma^2 =
+    // |r| / t with t log-uniform in [2, 1e3]
+    let top = (0.9f64..1.25, 0.9f64..1.25, any::<bool>(), any::<bool>(), 0.3f64..3.0).prop_map(|(a, b, sa, sb, lt)| {
+        let (re, im) = (if sa { -a } else { a } * 1e308, if sb { -b } else { b } * 1e308);
+        let norm = re.hypot(im);
+        ((re, im), (norm / 10f64.powf(lt)).sqrt())
+    });
     prop_oneof![
-        5 => (pos, sigma),
-        1 => scaled,
+        40 => (pos, sigma),
+        8 => scaled,
+        2 => ends,
+        1 => top,
     ]
     .prop_map(|((re, im), sigma)| LlrCase { re: Fx(re), im: Fx(im), sigma: Fx(sigma) }).boxed()
 }
@@ -157,6 +176,9 @@ fn check_llr(c: &LlrCase, p: &mut Probe) -> Check {
     let on_point = TABLE.iter().any(|t| (Complex::new(t.1.cos(), t.1.sin()) - y).norm() < 1e-12);
     p.class_if(soft, "soft-region");
     p.class_if(!(1e-3..=1e3).contains(&sigma), "extreme-sigma");
+    p.class_if(!(1e-140..=1e140).contains(&sigma), "sigma-at-the-ends-of-the-f64-range");
+    p.class_if(y.re != 0.0 && !y.re.is_normal(), "subnormal-sample");
+    p.class_if(y.re.abs() + y.im.abs() == f64::INFINITY, "component-sum-beyond-the-f64-range");
     p.class_if(on_point, "on-constellation-point");
     if soft && !on_point {
         p.nontrivial();
@@ -241,7 +263,10 @@ fn check_seq(c: &SeqCase, p: &mut Probe) -> Check {
     let dem = if c.salt & 4 == 4 { Psk8Demodulator::new(sigma) } else { Psk8Demodulator::from_noise_sigma(sigma) };
     // a quarter of the cases work on a clone of the object built (both types are Clone)
     let dem = if c.salt & 0x300 == 0x100 { dem.clone() } else { dem };
-    let ln = guarded(|| dem.demodulate(&noisy)).map_err(|e| Fail::new("panic", format!("8PSK demodulate panicked: {e}")))?;
+    // one case in eight: modulator and demodulators built on this thread work on another one
+    let moved = c.salt & 0x1c00 == 0x0400;
+    p.class_if(moved, "objects-used-on-another-thread");
+    let ln = guarded(|| if moved { on_other_thread(|| dem.demodulate(&noisy)) } else { dem.demodulate(&noisy) }).map_err(|e| Fail::new("panic", format!("8PSK demodulate panicked: {e}")))?;
     ensure!(ln.len() == 3 * noisy.len(), "llr-count", "{} symbols give {} LLRs", noisy.len(), ln.len());
     let sc = 1.0 / (sigma * sigma);
     for (k, y) in noisy.iter().enumerate() {
@@ -269,7 +294,7 @@ fn check_seq(c: &SeqCase, p: &mut Probe) -> Check {
     let hd: Vec<u8> = l.iter().map(|&x| u8::from(x <= 0.0)).collect();
     ensure!(hd == c.bits, "bpsk-roundtrip", "BPSK hard decisions {} differ from the bits {}", sh(&hd), sh(&c.bits));
     let noisy_b: Vec<f64> = s.iter().enumerate().map(|(k, x)| x + unit(splitmix(c.salt as u64 ^ 0x77 ^ (k as u64) << 24)) * (3.0 * sigma).min(50.0)).collect();
-    let lb = bd.demodulate(&noisy_b);
+    let lb = if moved { on_other_thread(|| bd.demodulate(&noisy_b)) } else { bd.demodulate(&noisy_b) };
     ensure!(lb.len() == noisy_b.len(), "llr-count", "BPSK: {} symbols give {} LLRs", noisy_b.len(), lb.len());
     for (k, y) in noisy_b.iter().enumerate() {
         let want = -2.0 * y * sc;
@@ -298,7 +323,7 @@ pub fn property() -> Property {
             }),
             Box::new(Sub {
                 name: "llr",
-                rule: "received samples: polar with |r| log-uniform in [1e-6, 1e3], |r| in [0.5, 1.6], exact constellation points, decision boundaries, origin, axes; sigma log-uniform in [1e-3, 1e3] or uniform in [0.05, 1.5], subject to |r|/sigma^2 <= 1e12; one case in six at an extreme scale (sigma log-uniform in [1e-70, 1e70], |r| = t sigma^2 with t log-uniform in [1e-3, 1e3]: samples far inside or outside the unit circle with moderate LLRs); oracle: own max-shifted 4-term log-sum-exp over the label partitions (= posterior log-ratio since |s| = 1), tolerance 64 eps (|r|/sigma^2 + 1); BPSK: -2r/sigma^2 within 4 eps relative; non-trivial = sample off the constellation with some |LLR| < 20",
+                rule: "received samples: polar with |r| log-uniform in [1e-6, 1e3], |r| in [0.5, 1.6], exact constellation points, decision boundaries, origin, axes; sigma log-uniform in [1e-3, 1e3] or uniform in [0.05, 1.5], subject to |r|/sigma^2 <= 1e12; one case in six at an extreme scale (sigma log-uniform in [1e-70, 1e70], |r| = t sigma^2 with t log-uniform in [1e-3, 1e3]: samples far inside or outside the unit circle with moderate LLRs; one case in 25 with sigma^2 within three decades of the largest or smallest normal f64, samples up to 1.2e308 per component or down into the subnormals; one case in 50 with both components between 0.9e308 and 1.25e308); oracle: own max-shifted 4-term log-sum-exp over the label partitions (= posterior log-ratio since |s| = 1), tolerance 64 eps (|r|/sigma^2 + 1); BPSK: -2r/sigma^2 within 4 eps relative; non-trivial = sample off the constellation with some |LLR| < 20",
                 cases: |t| t.pick(3_000_000, 100_000_000),
                 strategy: sample_strategy,
                 check: check_llr,
